@@ -354,6 +354,13 @@ func (d *Dir) AddFault(f DirFault) {
 	d.mu.Unlock()
 }
 
+// PendingFaults returns the number of injected failures that have not fired.
+func (d *Dir) PendingFaults() int {
+	d.mu.Lock()
+	defer d.mu.Unlock()
+	return len(d.faults)
+}
+
 // AddFaultNext makes the k-th next operation of the given kind fail.
 func (d *Dir) AddFaultNext(kind string, k int64, err error) {
 	d.mu.Lock()
